@@ -31,6 +31,8 @@ var consOpts = []consOpt{
 	10: {"zone in[z2,z3]+engine exists", []refCons{{"zone", "in", []string{"z2", "z3"}}, {"engine", "exists", nil}}},
 	11: {"zone in[z9]", []refCons{{"zone", "in", []string{"z9"}}}}, // no store matches
 	12: {"$mode in[ro]", []refCons{{"$mode", "in", []string{"ro"}}}},
+	13: {"zone in[z2,z1]", []refCons{{"zone", "in", []string{"z2", "z1"}}}},       // value lists are not sorted
+	14: {"zone notIn[z3,z1]", []refCons{{"zone", "notIn", []string{"z3", "z1"}}}},
 }
 
 var locOpts = [][]string{
